@@ -332,6 +332,50 @@ theorem recover_restartable_no_fallback (bcf : Nat → Bool) (tbl : List BlkInfo
   · exact Or.inl hv
   · exact Or.inr (hk.valid.trans hv)
 
+/-- the same, as an invariant: whatever prefix of its own writes such a recovery got through, the
+header files, both heads and the validity of the stored head's path are what they were (used to lift
+the statement to nodes with compaction files / without block bodies, `Props/C09Second.lean`) -/
+theorem recCrashAfter_kept (bcf : Nat → Bool) (tbl : List BlkInfo) (d : Durable)
+    (hp P : List BlkInfo)
+    (hhp : pathOf tbl (tbl.length + 1) d.dbHHead [] = some hp)
+    (hl1 : d.hdrHash.length = hp.length) (hl2 : d.hdrData.length = hp.length)
+    (hdata : d.hdrData = hp.map (·.id))
+    (hP : pathOf tbl (tbl.length + 1) d.dbHead [] = some P)
+    (hv : P.length ≤ 1 ∨ validAt bcf d [] P = true) (k : Nat) :
+    Kept bcf d P (recCrashAfter bcf tbl d k) := by
+  -- the writes of this recovery
+  have hins : ∀ i ∈ (recoverS bcf tbl d).1, Good d hp P i := by
+    unfold recoverS
+    have e1 : ¬ d.hdrHash.length ≠ d.hdrData.length := by rw [hl1, hl2]; simp
+    have e2 : ¬ d.hdrData.take hp.length ≠ hp.map (·.id) := by
+      rw [hdata]; simp [take_map_len]
+    simp only [e1, if_false, hhp, e2]
+    have hf : fallbackS bcf tbl (tbl.length + 1) (runIns d (hdrIns hp)) d.dbHead =
+        (syncIns P [], .ok d.dbHead) := by
+      unfold fallbackS
+      simp only [hP]
+      rcases hv with hv | hv
+      · simp [hv]
+      · have : validAt bcf (runIns d (hdrIns hp)) [] P = true := hv
+        by_cases h1 : P.length ≤ 1
+        · simp [h1]
+        · simp [h1, this]
+    rw [hf]
+    intro i hi
+    simp only [List.mem_append, List.mem_cons, List.mem_nil_iff, or_false] at hi
+    rcases hi with (hi | hi) | hi
+    · simp only [hdrIns, List.mem_cons, List.mem_nil_iff, or_false] at hi
+      rcases hi with rfl | rfl
+      · exact Or.inl ⟨Or.inl rfl, rfl⟩
+      · exact Or.inl ⟨Or.inr rfl, rfl⟩
+    · simp only [syncIns, List.mem_cons, List.mem_nil_iff, or_false] at hi
+      rcases hi with rfl | rfl | rfl | rfl | rfl <;> exact Or.inr (Or.inl ⟨by simp, rfl, rfl⟩)
+    · subst hi; exact Or.inr (Or.inr ⟨rfl, rfl⟩)
+  have hk := kept_run bcf d hp P (Nat.le_of_eq hl1) (Nat.le_of_eq hl2)
+    ((recoverS bcf tbl d).1.take k) d ⟨rfl, rfl, rfl, rfl, rfl⟩
+    (fun i hi => hins i (List.mem_of_mem_take hi))
+  exact hk
+
 /-! ### non-vacuity (the witness chain of `Props/C09.lean`: b8 spends o6, heights ≥ 6 commit to the
 bitmap) -/
 open GV.Props.C09 in
